@@ -50,6 +50,10 @@ func c17(e *Env) {
 		c17TLS(e, cfg)
 		return
 	}
+	if c.Choose("client-that-never-reads", 8) == 7 {
+		c17Rude(e, cfg)
+		return
+	}
 	w, pi := boot(e, cfg)
 	w.ScriptBeatsUnprepared = true
 	if pi.BootErr != nil || pi.Listener == nil {
@@ -540,4 +544,107 @@ func c17TLS(e *Env, cfg world.Config) {
 	e.Res.Nontrivial = true
 	e.Res.Sample = fmt.Sprintf("TLS listener: %d hostile peers at the TLS layer, then a well-behaved TLS client served", nh)
 	e.Res.Shape = fmt.Sprintf("tls h%d", nh)
+}
+
+// c17Rude: a client pipelines requests, never reads a single answer and then vanishes. While it is
+// connected the proxy may be stuck handing it answers (what a peer does not read cannot be
+// written); once it is gone nothing of that may remain: requests of other clients that were in
+// flight on the same backend connections are answered, and so is everything sent afterwards.
+// Tuning knob: a short write queue per connection, so that a handful of unread answers fill it.
+func c17Rude(e *Env, cfg world.Config) {
+	c := e.C
+	cfg.MaxMessages = 1 + c.Choose("rude-maxmessages", 4)
+	cfg.Hosts = 1 + c.Choose("rude-hosts", 2)
+	cfg.NumConns = 1 + c.Choose("rude-numconns", 2)
+	w, pi := boot(e, cfg)
+	if pi.BootErr != nil || pi.Listener == nil {
+		if !w.Stopped() {
+			e.Res.Infra = "proxy did not boot: " + errStr(pi.BootErr)
+		}
+		return
+	}
+	e.Res.Shape = fmt.Sprintf("never-reads h%d c%d q%d", cfg.Hosts, cfg.NumConns, cfg.MaxMessages)
+	e.Res.Stats["probe.c17.shape.client_that_never_reads"]++
+	start := func() *world.Client {
+		cl := w.ConnectClient(pi, cfg.ProxyVersion)
+		st := cl.Send("startup", "", message.NewStartup(), nil)
+		w.RunUntil(func() bool { return len(st.Replies) > 0 }, time.Minute)
+		return cl
+	}
+	canary, rude := start(), start()
+	if w.Stopped() {
+		return
+	}
+	query := func(cl *world.Client) *world.ClientReq {
+		tok := w.NewToken()
+		return cl.Send("query", tok, world.QueryMsg("SELECT * FROM ks.t WHERE k = '"+tok+"'", primitive.ConsistencyLevelOne), nil)
+	}
+	// requests of the rude client whose answers the nodes hold back for now: one or more per backend connection
+	savePeer := w.Cfg.WPeer
+	w.Cfg.WPeer = 0
+	for i := cfg.Hosts*cfg.NumConns + c.Choose("rude-held", 4); i > 0; i-- {
+		query(rude)
+	}
+	w.Quiesce()
+	// it stops reading and floods requests that the proxy answers itself, until the proxy takes no more
+	rude.StopReading(256 + c.Choose("rude-sndbuf", 4096))
+	for i := 20 + c.Choose("rude-flood", 100); i > 0; i-- {
+		rude.Send("system", "", world.QueryMsg("SELECT * FROM system.local", primitive.ConsistencyLevelOne), nil)
+	}
+	w.Quiesce()
+	if w.N.Stats.BlockedWrites > 0 {
+		e.Res.Stats["probe.c17.proxy_write_blocked_by_a_client_that_does_not_read"]++
+	}
+	// a request of the well-behaved client joins the ones in flight, and the nodes answer everything
+	inflight := query(canary)
+	w.Quiesce()
+	w.Cfg.WPeer = savePeer
+	w.RunUntil(func() bool { return w.HeldCount() == 0 }, time.Second)
+	w.Quiesce()
+	if w.Stopped() {
+		return
+	}
+	if len(inflight.Replies) == 0 {
+		e.Res.Stats["probe.c17.other_clients_request_stuck_behind_the_rude_client"]++
+	}
+	// the rude client goes away
+	if c.Choose("rude-leaves-how", 2) == 0 {
+		rude.Abort()
+	} else {
+		rude.Link.SetNoRead(false, 0)
+		rude.Disconnect()
+	}
+	const bound = 30 * time.Second
+	if !w.RunUntil(func() bool { return len(inflight.Replies) > 0 }, bound) {
+		if !w.Stopped() {
+			w.Violate("c17-canary", "request-wedged-after-a-non-reading-client-left", fmt.Sprintf("%s of the well-behaved client, in flight when the client that never read its answers went away, is unanswered %v later; blocked: %v", inflight, bound, blockedOf(e)))
+		}
+		return
+	}
+	for i := 2*cfg.Hosts*cfg.NumConns + 1; i > 0; i-- {
+		r := query(canary)
+		if !w.RunUntil(func() bool { return len(r.Replies) > 0 }, bound) {
+			if !w.Stopped() {
+				w.Violate("c17-canary", "request-wedged-after-a-non-reading-client-left", fmt.Sprintf("%s, sent after the client that never read its answers went away, is unanswered %v later; blocked: %v", r, bound, blockedOf(e)))
+			}
+			return
+		}
+		if rr, ok := replyMsg(r).(*message.RowsResult); !ok || len(rr.Data) != 1 || string(rr.Data[0][0]) != r.Token {
+			w.Violate("c17-canary", "canary-wrong-answer", fmt.Sprintf("%s was answered with %v", r, replyMsg(r)))
+			return
+		}
+	}
+	late := start()
+	if r := query(late); !w.RunUntil(func() bool { return len(r.Replies) > 0 }, bound) && !w.Stopped() {
+		w.Violate("c17-canary", "request-wedged-after-a-non-reading-client-left", fmt.Sprintf("%s of a client that connected afterwards is unanswered %v later; blocked: %v", r, bound, blockedOf(e)))
+		return
+	}
+	e.Res.Nontrivial = true
+	e.Res.Stats["oracle.c17.recovered_after_non_reading_client"]++
+	e.Res.Sample = fmt.Sprintf("client that never reads: %d blocked writes; everything answered after it left", w.N.Stats.BlockedWrites)
+}
+
+func blockedOf(e *Env) string {
+	b, _ := blockedReport(e.S)
+	return "[" + b + "]"
 }
